@@ -78,6 +78,10 @@ def judge(spec, obs):
                 if call["method"] in ("capture", "capture_bad"):
                     continue
             exp = call["exp"]
+            if exp[0] == "raise_any":
+                if r[0] != "raise":
+                    return f"client {cid}, call #{k} {call['method']}{tuple(call['args'])}: got {r[:3]}, the message cannot carry these values: it must raise"
+                continue
             if exp[0] == "ret":
                 ok = r[0] == "ret" and r[1] == exp[1]
             else:
@@ -162,6 +166,10 @@ def run(tier, seed, model):
                     calls.append({"method": "pause", "args": [rng.choice([0.1, 0.3])], "sleep": 0, "exp": ["ret", "obj"], "async": 0})
             if not any(cc["method"] == "mouseDrag" and cc["args"][:2] != [0, 0] for cc in calls):
                 calls.insert(1, {"method": "mouseDrag", "args": [3, 0, 1], "sleep": 0, "exp": ["ret", "obj"], "async": 0})
+            # calls that fail in the middle (a button / a coordinate the message cannot carry): they raise, and the calls
+            # after them behave as if they had not been made
+            for bad in rng.sample([("mouseDown", [9]), ("mouseMove", [70000, 3]), ("mousePress", [12]), ("mouseMove", [5, -1])], rng.randrange(1, 3)):
+                calls.insert(rng.randrange(1, len(calls) + 1), {"method": bad[0], "args": bad[1], "sleep": 0, "exp": ["raise_any", None], "async": 0})
             calls.append({"method": "keyPress", "args": ["z"], "sleep": 0, "exp": ["ret", "obj"], "async": 0})
             clients.append({"id": 1, "server": "ok", "calls": calls})
         elif kind == "slowstart":
